@@ -292,6 +292,15 @@ def constructed(rng):
                 for lead in ("1", "25", "0.5", "123.456", "0"):
                     sg = rng.choice(("", "-", "+"))
                     out.append("parse %s" % E.hexs("%se%s%d" % (lead, sg, e)))
+    # ... and exponents within 20 of 2^31 / 2^63 / 2^64 behind fractions of every length 0..19 (the fraction length is
+    # subtracted from / added to the exponent: isize arithmetic at its ends)
+    for w in (31, 63, 64):
+        for small in range(-20, 3):
+            for nf in (0, 1, 8, 9, 10, 17, 18, 19, -small if 0 < -small <= 19 else 2):
+                frac = ("0" * (nf - 1) + "1") if nf else ""
+                lead = rng.choice(("1", "0", "7")) + ("." + frac if nf else "")
+                for sg in ("-", "+", ""):
+                    out.append("parse %s" % E.hexs("%se%s%d" % (lead, sg, (1 << w) + small)))
     # lengths around chunk boundaries, pure digits and fraction-only
     for n in list(range(0, 12)) + [15, 16, 17, 23, 24, 25, 31, 32, 33, 38, 39, 40, 41, 47, 48, 80]:
         ds = digits(rng, n, True)
